@@ -37,7 +37,7 @@ theorem mem_threadRecs {t : Nat} {th : Thread} {r : Rec} :
   cases th.cur <;> simp
 
 /-- two log entries of one operation are the same entry -/
-theorem log_entry_unique {s₀ : State} {c : Config} (h : Inv s₀ c) {e e' : Lin} (he : e ∈ c.log) (he' : e' ∈ c.log)
+theorem log_entry_unique {s₀ : XState} {c : Config} (h : Inv s₀ c) {e e' : Lin} (he : e ∈ c.log) (he' : e' ∈ c.log)
     (h1 : e.tid = e'.tid) (h2 : e.idx = e'.idx) : e = e' := by
   have key : ∀ (l : List Lin), (l.map fun e => (e.tid, e.idx)).Nodup → e ∈ l → e' ∈ l → e = e' := by
     intro l
@@ -60,7 +60,7 @@ theorem log_entry_unique {s₀ : State} {c : Config} (h : Inv s₀ c) {e e' : Li
   exact key c.log h.nodup he he'
 
 /-- a record and the log entry of the same operation: invoked before, responded after -/
-theorem stamp_bounds {s₀ : State} {c : Config} (h : Inv s₀ c) {e : Lin} (he : e ∈ c.log) {r : Rec}
+theorem stamp_bounds {s₀ : XState} {c : Config} (h : Inv s₀ c) {e : Lin} (he : e ∈ c.log) {r : Rec}
     (hr : r ∈ c.history) (h1 : r.tid = e.tid) (h2 : r.idx = e.idx) :
     r.inv < e.stamp ∧ ∀ tr ret, r.resp = some (tr, ret) → e.stamp < tr := by
   obtain ⟨t, th, hget, hrt⟩ := mem_history.mp hr
@@ -83,7 +83,7 @@ theorem stamp_bounds {s₀ : State} {c : Config} (h : Inv s₀ c) {e : Lin} (he 
     cases hresp'
     exact hb2
 
-theorem history_ids_of_inv {s₀ : State} {c : Config} (h : Inv s₀ c) {r : Rec} (hr : r ∈ c.history) :
+theorem history_ids_of_inv {s₀ : XState} {c : Config} (h : Inv s₀ c) {r : Rec} (hr : r ∈ c.history) :
     ∃ th, c.threads[r.tid]? = some th ∧ r ∈ threadRecs r.tid th := by
   obtain ⟨t, th, hget, hrt⟩ := mem_history.mp hr
   have : r.tid = t := by
@@ -93,7 +93,7 @@ theorem history_ids_of_inv {s₀ : State} {c : Config} (h : Inv s₀ c) {r : Rec
   rw [this]
   exact ⟨th, hget, hrt⟩
 
-theorem linearizedBy_of_inv {s₀ : State} {c : Config} (h : Inv s₀ c) :
+theorem linearizedBy_of_inv {s₀ : XState} {c : Config} (h : Inv s₀ c) :
     LinearizedBy s₀ c.history c.order := by
   unfold Config.order
   refine ⟨?_, ?_, ?_, h.legal, ?_⟩
@@ -180,7 +180,7 @@ theorem recsFrom_ids {n : Nat} {ths : List Thread}
     have : a.tid = b.tid := congrArg Prod.fst heq
     omega
 
-theorem wellFormed_of_inv {s₀ : State} {c : Config} (h : Inv s₀ c) : WellFormed c.history := by
+theorem wellFormed_of_inv {s₀ : XState} {c : Config} (h : Inv s₀ c) : WellFormed c.history := by
   unfold WellFormed Config.history
   rw [List.Nodup, List.pairwise_map]
   refine recsFrom_ids fun i th hget => ?_
